@@ -39,11 +39,13 @@ CLAIMED["C14"] = {
             "is_optimal is the tolerant sign test of every reduced cost; find_h (Bland and Dantzig) returns a non-basic column whose reduced cost is below zero beyond the tolerance and None only when there is none; "
             "find_t returns an eligible row with its own ratio such that no eligible row has a ratio smaller by more than the tolerance, and None only without an eligible row. "
             "Bringing find_t under contract showed that the contract the step proof had ASSUMED for it was false (tie-break drift, one tolerance per near-tied row): a genuine defect, repaired (fix d8d6f69) and pinned by a bounded search over near-tie chains and pseudo-random tableaux on the real code. "
-            "The phase-one tableau of the two-phase start is proved as a statement slice (U14.ph1: artificial unit columns form the starting basis; on the solution set of the extended system the objective row measures exactly the sum of the artificial variables), "
+            "Three parts of the start-up are proved as statement slices: the phase-one tableau (U14.ph1: artificial unit columns form the starting basis; on the solution set of the extended system the objective row measures exactly the sum of the artificial variables), "
+            "the restoring of the objective after phase one (U14.ph2, a slice nested in a match arm: on the solution set the restored row minus the recorded value is the model's objective row, and basic variables get reduced cost zero when the basis is canonical), "
+            "and the direct start (U14.canon, nested in the if-branch of into_tableau, with divide_matrix_row_by: scaling rows by their singleton entries keeps the solution set and the same objective identity holds); "
             "and the point read off a tableau is the basic solution, which solves the system of a canonical tableau (U14.vals, ghost theorem lemma_basic_sat). "
             "Anti-cycling (finishing within the iteration limit) is liveness and is NOT decided.",
     "note": "Trusted: prelude/f64_layer.rs (exact real arithmetic on finite floats; powi by a one-entry table). Which of several rows tied within the tolerance leaves is not constrained (any of them satisfies the contract). A Kani harness re-checks find_h under CBMC's IEEE float model in the thorough tier (bounded). "
-            "Not decided: termination/anti-cycling, the phase-one solve / drive-out / restoring of the objective in the two-phase start (nested in a match arm, split_at_mut).",
+            "Not decided: termination/anti-cycling, the selection of singleton columns for the direct start, the drive-out of artificial variables at level zero and the dropping of redundant rows in the two-phase start (split_at_mut).",
     "technique": "Verus loop invariants + ghost linear-algebra lemmas on extracted Tableau::pivot / step_inner / find_h / find_t / is_optimal; bounded executable-postcondition search for the ratio test; Kani bounded cross-check of find_h (thorough)",
     "design_ref": "DESIGN.md §5 C14",
 }
